@@ -178,8 +178,11 @@ for rnd in range(12 * SCALE):
     # replayed ids
     k = successor(skr, zskpol, rid=skr["id"])
     run_pair("replayed-request-id", k, skr, pol(), token_for(skr))
+    def fresh_bundle_ids(q):
+        return dict(q, bundles=[dict(b, id=f"fresh-{R.randrange(10**9)}-{j}") for j, b in enumerate(q["bundles"])])
+    run_pair("replayed-request-id-fresh-bundle-ids", fresh_bundle_ids(successor(skr, zskpol, rid=skr["id"])), skr, pol(), token_for(skr))
     for ser in (0, 2, 10**6):
-        run_pair("replayed-request-id-other-serial", dict(successor(skr, zskpol, rid=skr["id"]), serial=ser), skr, pol(), token_for(skr))
+        run_pair("replayed-request-id-other-serial", dict(fresh_bundle_ids(successor(skr, zskpol, rid=skr["id"])), serial=ser), skr, pol(), token_for(skr))
     run_pair("same-serial-other-id", dict(successor(skr, zskpol), serial=skr["serial"]), skr, pol(), token_for(skr))
     k = successor(skr, zskpol)
     k["bundles"][R.randrange(len(k["bundles"]))]["id"] = skr["bundles"][R.randrange(n_prev)]["id"]
